@@ -875,6 +875,9 @@ class Repo:
                 out |= self._attr_type(a, e.attr, depth)
             return frozenset(out)
         if isinstance(e, ast.Call):
+            # b''.join(...) / ''.join(...): the type of the separator literal
+            if isinstance(e.func, ast.Attribute) and e.func.attr == 'join' and isinstance(e.func.value, ast.Constant) and isinstance(e.func.value.value, (str, bytes)):
+                return t_inst('bytes' if isinstance(e.func.value.value, bytes) else 'str')
             return self._call_type(e, f, m, depth)
         if isinstance(e, ast.Subscript):
             base = self.type_of(e.value, f, m, depth + 1)
